@@ -364,7 +364,7 @@ def _rule_curve(c, rule):
 
 
 # --------------------------------------------------------------------------- 1. damage = n_i / N(S_i)
-@subcheck(PROP, "member_damage", strategy=lambda tier: base_cases(tier), quick=3000, thorough=100000,
+@subcheck(PROP, "member_damage", strategy=lambda tier: base_cases(tier), quick=2500, thorough=100000,
           doc="damage of every member equals n_i / N(S_i) of the literal reference (own k_2 and the three Miner variants), index kept")
 def member_damage(case, ctx):
     c, coll = case["curve"], case["coll"]
@@ -466,7 +466,7 @@ def _perm_cases(draw, tier):
     return case
 
 
-@subcheck(PROP, "permutation", strategy=_perm_cases, quick=2000, thorough=60000,
+@subcheck(PROP, "permutation", strategy=_perm_cases, quick=1500, thorough=60000,
           doc="reordering the members permutes the member damages and leaves the damage sum, the lifetime multiples and the Gassner cycles unchanged")
 def permutation(case, ctx):
     c, coll, perm = case["curve"], case["coll"], list(case["perm"])
